@@ -609,6 +609,30 @@ impl GremlinTranslator {
                     })
                     .collect();
 
+                // values() emits the values that exist: an element without any of the
+                // properties yields no traverser (it is not a null to be counted)
+                let has_value = keys
+                    .iter()
+                    .map(|k| LogicalExpression::Unary {
+                        op: UnaryOp::IsNotNull,
+                        operand: Box::new(LogicalExpression::Property {
+                            variable: current_var.to_string(),
+                            property: k.clone(),
+                        }),
+                    })
+                    .reduce(|acc, has_key| LogicalExpression::Binary {
+                        left: Box::new(acc),
+                        op: BinaryOp::Or,
+                        right: Box::new(has_key),
+                    });
+                let input = match has_value {
+                    Some(predicate) => LogicalOperator::Filter(FilterOp {
+                        predicate,
+                        input: Box::new(input),
+                    }),
+                    None => input,
+                };
+
                 let plan = LogicalOperator::Project(ProjectOp {
                     projections,
                     input: Box::new(input),
